@@ -63,6 +63,7 @@ def escape_position_sweep(points):
 UNQ_TOKENS = ["%41", "%2F", "%2f", "%25", "%2B", "%26", "%3D", "%3B", "%20", "%C3", "%A9", "%c3%a9", "%E2", "%82",
               "%AC", "%F0", "%9F", "%98", "%80", "%ED", "%A0", "%E0", "%C0", "%F4", "%90", "%F5", "%FF",
               "%", "%4", "%zz", "+", "a", "/", "é", " ", "&", "=", ";", "%e2%82%ac", "%\u0430\u0141", "%4\u0466",
+              "%2E", "%2e", "r%2Et", ".",   # an escaped dot is not a suffix separator, a real one is
               # boundary sequences of every UTF-8 length class (first/last valid, first invalid)
               "%C2%80", "%DF%BF", "%E0%A0%80", "%ED%9F%BF", "%EE%80%80", "%EF%BF%BF", "%F0%90%80%80", "%F3%BF%BF%BF",
               "%F4%80%80%80", "%F4%8F%BF%BF", "%f4%8f%bf%bf", "%F4%90%80%80", "%ED%A0%80", "%E0%9F%BF", "%F0%8F%BF%BF", "%C1%BF"]
@@ -124,7 +125,7 @@ SCHEMES = ["http", "https", "ws", "wss", "ftp", "file", "x-y.z+1", "mailto", ""]
 USERINFO = ["", "u@", "u:p@", "u:@", ":p@", "u%40x:p%3Ay@", "us%20er:pa%2Fss@", "U:P@", "a+b:c=d@", "é:ü@",
             "%A9x%C3:%A9y%C3@", "%82%ACu%E2:%ACp%E2%82@", "u%:41p%4@"]
 HOSTS = ["example.com", "h", "127.0.0.1", "[::1]", "[fe80::1%25eth0]", "[2001:db8::ff00:42:8329]",
-         "xn--bcher-kva.example", "EXAMPLE.Com", "bücher.example", "a.b.c.", "1.2.3", "[::ffff:1.2.3.4]",
+         "xn--bcher-kva.example", "EXAMPLE.Com", "bücher.example", "WWW.café.com", "EXAMPLE.пример.рф", "a.b.c.", "1.2.3", "[::ffff:1.2.3.4]",
          "h_x", "a-b.c", "", "[v1.x]", "h%41", "0x7f.1", "va.gov", "v1.example.com", "vf.fe80", "１２７.０.０.１", "192.168.1.１", "١٢٧.٠.٠.١", "1.2.3.４", "[0:0:0:0:0:0:0:1]", "XN--bcher-kva.example", "Xn--Bcher-Kva.EXAMPLE",
          "xn--bcher-kva.XN--p1ai", "BÜCHER.example", "ｅxample.com", "a。b", "[::1%25Eth0]", "[FE80::1]",
          # text that still looks escaped after one pass (a second pass must not touch it)
@@ -134,7 +135,9 @@ BAD_PORTS = [":65536", ":x", ":-1", ": 1", ":+1", ":1_0"]
 PATHS = ["", "/", "/a", "/a/b", "/a/", "//a", "/a//b", "/a%2Fb/c", "/%C3%A9", "/a;p=1", "/a+b", "/a b",
          "/.", "/..", "/a/./b/../c", "/%2E/%2e%2E/x", "/a.b.c", "/.hidden", "/x.tar.gz", "/é/ü.txt", "/a%zz",
          "/a%", "/%41%2f", "/a:b", "/@", "/a?", "a", "a/b", "../a", "./a", "a:b", "a/../..", "/a/b/c/d.e.f",
-         "/%A9p%C3/%A9n%C3", "/x%C3", "/%A9", "/n%E2%82", "/a%/41", "/archive.tar.", "/a..", "/.a.b."]
+         "/%A9p%C3/%A9n%C3", "/x%C3", "/%A9", "/n%E2%82", "/a%/41", "/archive.tar.", "/a..", "/.a.b.",
+         # names that become a dot segment when their suffix is removed or replaced
+         "/a/b/..txt", "/a/...tar", "/d/..x", "/report%2Etxt", "/a%2E%2E/b"]
 QUERIES = ["", "?", "?a=1", "?a=1&b=2", "?a=1&a=2", "?a", "?a=", "?=1", "?a=b=c", "?a%26b=c%3Dd", "?a+b=c+d",
            "?a=%2B", "?x=é", "?a=1;b=2", "?a=1&&b=2", "?a=%FF", "?a=%E2%82", "?k=/?:@", "?a=b#c", "?%zz=1", "?a=1&", "?%A9k%C3=%A9v%C3", "?a=%C3", "?%A9=b", "?a=%", "?41=b"]
 FRAGMENTS = ["", "#", "#f", "#f/g?h", "#%23", "#é", "#a b", "#a%zz", "#a#b", "#%A9f%C3", "#%82%ACf%E2", "#f%", "#41"]
@@ -177,8 +180,8 @@ def soup_urls(rng, n, maxlen=14):
 # ---------------------------------------------------------------------------------
 TEXTS = ["", "a", "a b", "é", "a/b", "a%2Fb", "%", "%41", "a+b", "a&b=c", "a;b", "x:y", "@", "#", "?", ".", "..",
          "./a", "../a", "a/./b", "a//b", "/abs", "name.txt", ".hidden", "x.tar.gz", "a.", "[", "]", "a\tb", "\x00",
-         "日本", "😀", "a\ud800b", "%zz", "%2", "%C3%A9", "A", "~", "!$'()*,", "\"<>\\^`{|}", " "]
-HOST_ARGS = ["h", "example.com", "EXAMPLE.COM", "bücher.example", "127.0.0.1", "::1", "fe80::1%eth0", "[::1]", "",
+         "日本", "😀", "a\ud800b", "%zz", "%2", "%C3%A9", "A", "~", "!$'()*,", "\"<>\\^`{|}", " ", "..txt", "...tar"]
+HOST_ARGS = ["h", "example.com", "EXAMPLE.COM", "bücher.example", "WWW.café.com", "bücher.Example.ORG", "127.0.0.1", "::1", "fe80::1%eth0", "[::1]", "",
              "a b", "a/b", "a@b", "a:b", "h_x", "Éx_.Com", "a／b", "1.2.3.4", "2001:DB8::1", "a%41", "a%zz", "xn--x-9fa.com",
              "fe80::1%a/b", "h.", "例え.テスト"]
 PORT_ARGS = [None, 0, 1, 21, 80, 443, 8080, 65535, 65536, -1, True, False, 10 ** 6]
